@@ -1,4 +1,4 @@
-\* C15 walk stage hold, quick bound; convention HoldStrict=False ExpiryClosed=True; code deviations included (Faithful)
+\* C15 walk stage hold, quick bound; convention HoldStrict=False ExpiryClosed=True; hold by stored deadline (the code), its deviation edges included (Faithful)
 SPECIFICATION Spec
 CONSTANTS
   Peers = {"p1"}
@@ -12,6 +12,7 @@ CONSTANTS
   AdvSteps = {1, 2}
   HoldStrict = FALSE
   ExpiryClosed = TRUE
+  HoldBy = "deadline"
   Faithful = TRUE
 INVARIANTS TypeOK LevelBounded
 PROPERTIES LevelFormula OnlyRecalcSwitches OnOnlyIfReached OnWhenReached OffOnlyAfterHold ModePins
